@@ -310,19 +310,8 @@ Definition check_opts (c : case) : list nat :=
                                   match get_key r_KEY n with Some k => text_eqb k (oo_key o) | None => false end) after with
              | Some n => match get_value r_VALUE n with Some v' => text_eqb v' v | None => false end
              | None => false
-             end) 31 ++
-        (* guard: the option that is set has a VALUE to replace *)
-        tag (match find (fun n => is_option r_option n &&
-                                  match get_key r_KEY n with Some k => text_eqb k (oo_key o) | None => false end) ch with
-             | Some n => match get_value r_VALUE n with Some _ => true | None => false end
-             | None => true
-             end) 231
+             end) 31
     | _, _, _ => []
-    end ++
-    (* guard of remove_option: the model does not run into the empty new_children *)
-    match oo_kind o with
-    | 2 => tag (match remove_option r_option r_KEY r_WS ch (oo_key o) with Some _ => true | None => false end) 232
-    | _ => []
     end) (c_opts c).
 
 Definition verdict (c : case) : list nat :=
